@@ -118,13 +118,14 @@ pub enum To {
     Chan(usize),
 }
 
-fn services(vfactory: &Arc<dyn ValidatorFactory>, clock: &Arc<ManualClock>, store: &Arc<MemPersister>) -> NodeServices {
+fn services(vfactory: &Arc<dyn ValidatorFactory>, clock: &Arc<ManualClock>, store: &Arc<MemPersister>, trusted_oracles: &[PublicKey]) -> NodeServices {
     NodeServices {
         validator_factory: vfactory.clone(),
         starting_time_factory: FixedStartingTimeFactory::new(1, 1),
         persister: store.clone() as Arc<dyn Persist>,
         clock: clock.clone(),
-        trusted_oracle_pubkeys: vec![],
+        // as vlsd passes its configured TXO oracle keys (none unless the world is configured with some)
+        trusted_oracle_pubkeys: trusted_oracles.to_vec(),
     }
 }
 
@@ -143,7 +144,7 @@ fn build_root(
         Negotiation::SignerCap => version,
         Negotiation::NodeCap | Negotiation::Init2 => msgs::DEFAULT_MAX_PROTOCOL_VERSION,
     };
-    let mut init = HandlerBuilder::new(cfg.network, 0, services(vfactory, clock, store), cfg.seed)
+    let mut init = HandlerBuilder::new(cfg.network, 0, services(vfactory, clock, store, &cfg.trusted_oracles), cfg.seed)
         .approver(Arc::new(PositiveApprover()))
         .max_protocol_version(signer_max)
         .build()
@@ -421,6 +422,37 @@ impl ProtoWorld {
             Out::Err(e) => Out::Err(e),
             Out::Panic(p) => Out::Panic(p),
         }
+    }
+}
+
+impl World {
+    /// A `World` around the signer of a `ProtoWorld`: the same `Node` (the one the root handler
+    /// serves), store, clock and validator factory, so that the API-level helpers of `World` /
+    /// `chainpool` (channel preparation, views) and protocol messages to `pw.root` act on one
+    /// signer.  The channel tables of the two are independent (`pw.chans` stays as it is).
+    /// After `pw.restart()` call [`World::rebind_proto`].
+    pub fn from_proto(pw: &ProtoWorld) -> World {
+        World {
+            cfg: pw.cfg.clone(),
+            secp: Secp256k1::new(),
+            node: pw.node().clone(),
+            store: pw.store.clone(),
+            cloud: None,
+            clock: pw.clock.clone(),
+            vfactory: pw.vfactory.clone(),
+            chans: vec![],
+            restarts: 0,
+            fault: std::sync::Arc::new(FaultSwitch::default()),
+            backup: None,
+        }
+    }
+
+    /// Follow a restart of the `ProtoWorld` (`ProtoWorld::restart`: a second signer built by
+    /// `HandlerBuilder` from a copy of the store): continue on its node and store.
+    pub fn rebind_proto(&mut self, pw: &ProtoWorld) {
+        self.node = pw.node().clone();
+        self.store = pw.store.clone();
+        self.restarts += 1;
     }
 }
 
